@@ -111,6 +111,24 @@ func genRegistry(g *Gen, n int) {
 			case 8:
 				f.Admin()
 			}
+			if g.r.Chance(1, 5) {
+				// scalars at boundary values, each followed by every scalar query
+				switch g.r.Intn(4) {
+				case 0:
+					g.tx("UpdateMaxMessageBodySize", f.owner, fmt.Sprintf("size=%d", []uint64{0, 1, 8000, 1<<64 - 1}[g.r.Intn(4)]), "")
+				case 1:
+					g.tx("UpdateSignatureThreshold", f.attmgr, fmt.Sprintf("amount=%d", 1+g.r.Intn(3)), "")
+				case 2:
+					g.tx(g.pick([]string{"PauseBurningAndMinting", "UnpauseBurningAndMinting", "PauseSendingAndReceivingMessages", "UnpauseSendingAndReceivingMessages"}), f.pauser, "", "")
+				case 3:
+					g.tx("SendMessage", f.A(0), fmt.Sprintf("dest=1 recipient=%x body=", g.r.Bytes(32)), "")
+				}
+				g.stats.Mut("scalar-setter-then-queries")
+				for _, sq := range []string{"Roles", "BurningAndMintingPaused", "SendingAndReceivingMessagesPaused", "MaxMessageBodySize",
+					"NextAvailableNonce", "SignatureThreshold"} {
+					g.q(sq, "")
+				}
+			}
 			// single-item queries over the colliding pools
 			switch g.r.Intn(6) {
 			case 0:
